@@ -293,6 +293,14 @@ def judge_operator(model, cls, name, node, order, world=None, reflected=None):
         for kn, kc in overrides.items():
             if name not in kc.members:
                 selves.append(_node(kn, a, b))
+        # instances of node classes that inherit the method: what they are
+        # made of may not be folded into the result ((a**2)**0.5 is |a|)
+        pw = model.cls(f"{PRIM}:Power")
+        if name not in pw.members:
+            selves.append(Obj("Power", {"base": a, "exponent": 2}))
+        qt = model.cls(f"{PRIM}:Quotient")
+        if name not in qt.members:
+            selves.append(Obj("Quotient", {"numerator": a, "denominator": b}))
     elif cls.name in ("Sum", "Product"):
         # (a nested node of the same class among the operands: splicing must
         # keep the operands in the order they were written)
